@@ -212,8 +212,20 @@ Proof.
 Qed.
 Lemma m_pos_skip max s : m_pos max (a_skipws s) = m_pos max s.
 Proof. unfold m_pos, a_match_int. rewrite skipws_idem. reflexivity. Qed.
+(* ================= generic in the reader's atom limit vm (ProgramReader::setMaxVar); g_complete (vm = sm_varMax) behind the section ================= *)
+Section MaxVar.
+Variable vm : Z.
+Hypothesis Hvm : vm <= INT64_MAX.
+Local Notation read_rules := (read_rules_v vm).
+Local Notation do_parse := (do_parse_v vm).
+Local Notation parse_steps := (parse_steps_v vm).
+Local Notation read_smodels := (read_smodels_v vm).
+Local Notation gstep_in := (gstep_in_v vm).
+Local Notation gin_range := (gin_range_v vm).
+Local Notation read_rules_fwd_gen := (V.C07.ProofsGComplete.read_rules_fwd_gen vm Hvm).
+
 Lemma read_rules_skip fu o prio s : read_rules (S fu) o prio (a_skipws s) = read_rules (S fu) o prio s.
-Proof. cbn [read_rules]. rewrite m_pos_skip. reflexivity. Qed.
+Proof. cbn [read_rules_v]. rewrite m_pos_skip. reflexivity. Qed.
 
 Lemma rules_toks_len rules : (length rules <= length (flat_map rule_toks rules))%nat.
 Proof.
@@ -246,9 +258,9 @@ Proof. unfold step_toks. destruct (flat_map rule_toks (g_rules st)); discriminat
 Lemma do_parse_fwd o st k ln : gstep_ok st k = true -> gstep_in (claspExt o) st = true ->
   cyields (do_parse o (a_skipws (amk (r_gstep st ++ k) ln))) (d_gstep st) k.
 Proof.
-  intros Hok Hin. unfold gstep_ok in Hok. unfold gstep_in in Hin. bsplit.
+  intros Hok Hin. unfold gstep_ok in Hok. unfold gstep_in_v in Hin. bsplit.
   repeat match goal with Hx : (_ =? 0) = true |- _ => apply Z.eqb_eq in Hx end.
-  unfold do_parse. unfold cbind at 1.
+  unfold do_parse_v. unfold cbind at 1.
   assert (C : cyields (cbind (read_rules (fuel_of (a_skipws (amk (r_gstep st ++ k) ln))) o 0 (a_skipws (amk (r_gstep st ++ k) ln)))
       (fun s1 => cbind (read_symbols (fuel_of s1) s1) (fun s2 => cbind (read_compute sm_kw_bplus true s2) (fun s3 =>
        cbind (read_compute sm_kw_bminus false s3) (fun s4 => cbind (read_extra s4) (fun s5 => ([CEnd], Ok s5)))))))
@@ -300,7 +312,7 @@ Lemma parse_steps_fwd o inc : forall steps tail fuel ln, seq_ok r_gstep gstep_ok
 Proof.
   induction steps as [|st steps IH]; intros tail fuel ln Hs Hne Ht Hin Hinc Hf; [congruence|].
   destruct fuel as [|fu]; [cbn in Hf; lia|]. cbn [seq_ok] in Hs. cbn [forallb] in Hin. bsplit.
-  cbn [parse_steps flat_map]. rewrite <- app_assoc.
+  cbn [parse_steps_v flat_map]. rewrite <- app_assoc.
   destruct (do_parse_fwd o st (flat_map r_gstep steps ++ tail) ln ltac:(assumption) ltac:(assumption)) as [ln1 E].
   rewrite E. unfold cbind. cbv zeta. unfold a_end. rewrite peek_hd, rest_skipws. cbn [rest].
   destruct steps as [|st2 steps].
@@ -316,12 +328,12 @@ Proof.
 Qed.
 
 (* ---------------- the reader ---------------- *)
-Lemma g_complete (o : opts) (p : gprog) :
+Lemma g_complete_v (o : opts) (p : gprog) :
   glayout_ok p = true -> gin_range (claspExt o) p = true -> read_smodels o (grender p) = (gdenote p, Ok tt).
 Proof.
-  unfold glayout_ok, gin_range, gincremental, gdenote. intros Hl Hr. bsplit.
+  unfold glayout_ok, gin_range_v, gincremental, gdenote. intros Hl Hr. bsplit.
   match goal with Hx : is_digit (hd 0 (grender p)) = true |- _ => rename Hx into Hd end.
-  unfold read_smodels. rewrite peek_hd. unfold a_init. cbn [rest]. rewrite Hd. cbn [andb].
+  unfold read_smodels_v. rewrite peek_hd. unfold a_init. cbn [rest]. rewrite Hd. cbn [andb].
   match goal with Hx : negb (hd 0 (grender p) =? 57) || claspExt o = true |- _ => rewrite Hx end.
   unfold cbind.
   assert (Esk : a_skipws (amk (grender p) 1) = amk (grender p) 1).
@@ -332,3 +344,8 @@ Proof.
   - unfold fuel_of. cbn [rest]. unfold grender. rewrite app_length.
     pose proof (steps_len _ _ ltac:(eassumption)). lia.
 Qed.
+End MaxVar.
+
+Lemma g_complete (o : opts) (p : gprog) :
+  glayout_ok p = true -> gin_range (claspExt o) p = true -> read_smodels o (grender p) = (gdenote p, Ok tt).
+Proof. exact (g_complete_v sm_varMax atomMax_le_int64 o p). Qed.
